@@ -43,21 +43,25 @@ os.makedirs(dst, exist_ok=True)
 for f in ("patch.diff", "zz_seed_demo_test.go", "NOTES.md"):
     if os.path.exists(os.path.join(src, f)):
         shutil.copy(os.path.join(src, f), os.path.join(dst, f))
-# run our check against the patched /repo
-rc, out = sh("git -C /repo status --porcelain")
-assert out.strip() == "", "repo not clean: " + out
-rc, out = sh("git -C /repo apply %s/patch.diff" % dst)
+# run our check against a scratch worktree of /repo with the patch applied (VERIF_REPO), never /repo itself
+wt2 = "/tmp/confirm-check-" + name
+sh("git -C /repo worktree remove --force %s" % wt2)
+rc, out = sh("git -C /repo worktree add --detach %s HEAD" % wt2)
 assert rc == 0, out
 try:
+    rc, out = sh("git apply %s/patch.diff" % dst, cwd=wt2)
+    assert rc == 0, out
     t0 = time.time()
-    rc, out = sh("python3 tools/vcheck.py %s --tier %s" % (prop, tier), cwd=VERIF, timeout=3000)
-    res["check_cmd"] = "python3 tools/vcheck.py %s --tier %s" % (prop, tier)
+    env2 = dict(ENV, VERIF_REPO=wt2)
+    r = subprocess.run("python3 tools/vcheck.py %s --tier %s" % (prop, tier), shell=True, cwd=VERIF, env=env2, capture_output=True, text=True, timeout=3000)
+    rc, out = r.returncode, r.stdout + r.stderr
+    res["check_cmd"] = "VERIF_REPO=<worktree with patch> python3 tools/vcheck.py %s --tier %s" % (prop, tier)
     res["check_exit"] = rc
     res["check_wall_s"] = round(time.time() - t0, 1)
     res["check_output"] = [l for l in out.splitlines() if l.startswith(("VIOLATION", "KNOWN", "  harness=", prop, "INCONCLUSIVE"))][:12]
     res["detected"] = rc == 1
 finally:
-    sh("git -C /repo checkout -- .")
+    sh("git -C /repo worktree remove --force %s" % wt2)
 print("check exit", res["check_exit"], res["check_output"])
 meta = {"property": prop, "breaks": open(os.path.join(dst, "NOTES.md")).read()[:1500] if os.path.exists(os.path.join(dst, "NOTES.md")) else "",
         "confirmed": {k: res[k] for k in ("patch_applies", "suite_passes_with_patch", "demo_fails_with_patch", "demo_passes_without_patch")},
